@@ -8,6 +8,7 @@
 //     add-only hook VerifDumpContainer): stored headers, garbage marks,
 //     container mark, counters,
 //   - every view the properties talk about for every universe address.
+//
 // Built inside /repo's module through `go build -overlay` (see /verif/lib/vlib.py).
 package main
 
@@ -269,23 +270,23 @@ type DCnr struct {
 }
 
 type Obs struct {
-	Epoch   uint64      `json:"epoch"`
-	Cnrs    []DCnr      `json:"cnrs"`
-	Total   [7]uint64   `json:"total"`
-	Exists  [][]int     `json:"exists"`  // per container, per oid 1..nOID
-	ExistsI [][]int     `json:"existsi"` // ignoreExpiration
-	Get     [][]int     `json:"get"`
-	GetRaw  [][]int     `json:"getraw"`
-	Locked  [][]int     `json:"locked"`
-	Search  [][]int     `json:"search"` // per container ordered ids
-	SearchR [][]int     `json:"searchr"`
-	EC      [][][]int   `json:"ec"`      // per container, per oid: for each probe class*10^6 + id*10^4 + link*100 + last
-	List    [][3]int    `json:"list"`    // full listing (cnr, id, type)
-	Pages   [][][3]int  `json:"pages"`   // listing by pages of pageSize
-	Expired [][][3]int  `json:"expired"` // for each probe epoch: ordered (cnr, id, type)
-	ExpEp   []uint64    `json:"expep"`
-	Garbage [][][]int   `json:"garbage"` // per limit: bins [cnr, ids...]
-	GarbLim []int       `json:"garblim"`
+	Epoch   uint64     `json:"epoch"`
+	Cnrs    []DCnr     `json:"cnrs"`
+	Total   [7]uint64  `json:"total"`
+	Exists  [][]int    `json:"exists"`  // per container, per oid 1..nOID
+	ExistsI [][]int    `json:"existsi"` // ignoreExpiration
+	Get     [][]int    `json:"get"`
+	GetRaw  [][]int    `json:"getraw"`
+	Locked  [][]int    `json:"locked"`
+	Search  [][]int    `json:"search"` // per container ordered ids
+	SearchR [][]int    `json:"searchr"`
+	EC      [][][]int  `json:"ec"`      // per container, per oid: for each probe class*10^6 + id*10^4 + link*100 + last
+	List    [][3]int   `json:"list"`    // full listing (cnr, id, type)
+	Pages   [][][3]int `json:"pages"`   // listing by pages of pageSize
+	Expired [][][3]int `json:"expired"` // for each probe epoch: ordered (cnr, id, type)
+	ExpEp   []uint64   `json:"expep"`
+	Garbage [][][]int  `json:"garbage"` // per limit: bins [cnr, ids...]
+	GarbLim []int      `json:"garblim"`
 }
 
 type Step struct {
@@ -663,6 +664,22 @@ type gen struct {
 	ncnr    int
 	epoch   uint64
 	cat     [nCnr + 1][nOID + 1]*Obj // an object ID always denotes the same header within a history
+	// profile "s1c": operations mostly aim at objects that are (probably) stored, so that long
+	// prefixes stay inside the fragment for which the counters are proved exact (C02)
+	stored [nCnr + 1][nOID + 1]bool
+}
+
+func (g *gen) storedID(c int) int {
+	var ids []int
+	for id := 1; id <= nOID; id++ {
+		if g.stored[c][id] {
+			ids = append(ids, id)
+		}
+	}
+	if len(ids) == 0 || g.r.p(8) {
+		return g.oid()
+	}
+	return ids[g.r.n(len(ids))]
 }
 
 func (g *gen) oid() int { return 1 + g.r.n(nOID) }
@@ -711,12 +728,13 @@ func (g *gen) plain(c int, id int, t int) *Obj {
 // shape draws the header of (c, id). The family relations are layered so that
 // they cannot be cyclic (object IDs are header hashes; a cyclic family cannot
 // exist and collectChildren would not terminate on one):
-//   1..4   roots: plain objects, rarely with a parent among smaller roots
-//   5..6   first children (the IDs used as split.first), parent among the roots
-//   7..10  plain objects, EC parts (parent: any smaller ID), v2 split children
-//          and links (first in 5..6, parent among the roots), v1 split children
+//
+//	1..4   roots: plain objects, rarely with a parent among smaller roots
+//	5..6   first children (the IDs used as split.first), parent among the roots
+//	7..10  plain objects, EC parts (parent: any smaller ID), v2 split children
+//	       and links (first in 5..6, parent among the roots), v1 split children
 func (g *gen) shape(c, id int) *Obj {
-	if g.profile == "s1" {
+	if g.profile == "s1" || g.profile == "s1c" {
 		t := []int{0, 0, 0, 0, 1, 1, 2, 2, 3}[g.r.n(9)]
 		return g.plain(c, id, t)
 	}
@@ -823,11 +841,32 @@ func (g *gen) materialize(o *Obj, d int) *Obj {
 
 func (g *gen) object(c int) *Obj {
 	o := g.cat[c][g.oid()]
+	if g.profile == "s1c" {
+		for i := 0; i < 4 && o.T == 1 && !g.stored[c][o.Assoc%(nOID+1)]; i++ {
+			o = g.cat[c][g.oid()] // tombstones preferably for stored targets
+		}
+		g.stored[c][o.ID] = true
+	}
 	d := 3
 	if g.r.p(10) {
 		d = g.r.n(3)
 	}
 	return g.materialize(o, d)
+}
+
+func (g *gen) ids1(c int) []int {
+	if g.profile != "s1c" {
+		return g.ids()
+	}
+	n := 1
+	if g.r.p(30) {
+		n = 2
+	}
+	var res []int
+	for i := 0; i < n; i++ {
+		res = append(res, g.storedID(c))
+	}
+	return res
 }
 
 func (g *gen) ids() []int {
@@ -842,8 +881,21 @@ func (g *gen) ids() []int {
 	return res
 }
 
+func (g *gen) anyStored(c int) bool {
+	for id := 1; id <= nOID; id++ {
+		if g.stored[c][id] {
+			return true
+		}
+	}
+	return false
+}
+
 func (g *gen) op() Op {
-	switch k := g.r.n(100); {
+	k := g.r.n(100)
+	if g.profile == "s1c" && k >= 45 && k < 86 && !g.anyStored(1) {
+		k = 0 // nothing to mark / delete / revive yet: put
+	}
+	switch {
 	case k < 42:
 		c := g.cnr()
 		return Op{K: "put", C: c, O: g.object(c)}
@@ -860,13 +912,23 @@ func (g *gen) op() Op {
 		if g.r.p(35) {
 			m = 1
 		}
-		return Op{K: "mark", C: g.cnr(), IDs: g.ids(), M: m}
+		c := g.cnr()
+		return Op{K: "mark", C: c, IDs: g.ids1(c), M: m}
 	case k < 62:
 		return Op{K: "inhc", C: 1 + g.r.n(g.ncnr)}
 	case k < 75:
-		return Op{K: "del", C: g.cnr(), IDs: g.ids()}
+		c := g.cnr()
+		ids := g.ids1(c)
+		for _, id := range ids {
+			g.stored[c][id] = false
+		}
+		return Op{K: "del", C: c, IDs: ids}
 	case k < 86:
-		return Op{K: "rev", C: g.cnr(), ID: g.oid()}
+		c := g.cnr()
+		if g.profile == "s1c" {
+			return Op{K: "rev", C: c, ID: g.storedID(c)}
+		}
+		return Op{K: "rev", C: c, ID: g.oid()}
 	case k < 99:
 		// mostly advance, sometimes jump anywhere in 0..10
 		e := g.epoch + uint64(1+g.r.n(2))
